@@ -158,7 +158,8 @@ CLAIMS = {
              "(nothing / the exact key / one / several abbreviation matches) per member (exact key wins, one "
              "abbreviation in total is used, none or several end in an exception), T2 a key ends the open value list "
              "of every member, T3 result 'last' ends the evaluation, T4 '!' inverts the next argument of whichever "
-             "member owns it and nothing stays armed.",
+             "member owns it and nothing stays armed (T4 reports an open, recorded finding: the present behaviour is "
+             "codified by an unpinned in-tree test, see known_findings.json).",
         note="trusts clang AST/CFG; per-member identification rules are those of C02; value equality between the "
              "two evaluation paths is not decided",
         technique="static analysis: sibling agreement + per-iteration must-pass-through on the CFG + exhaustive "
